@@ -38,7 +38,10 @@ CHECKS = {
              "init_source; exchange when materials and attenuation were set; final-configuration theorem over ALL histories: two states (or two arbitrary histories from a fresh "
              "object) that agree on the configuration fields answer bake; init_source; exchange(recalculate) with the same "
              "classes up to the first failure and, on success, the same provenance of every receiver collection -- no "
-             "cached field of either state enters (C16_final_config_history_independent). Refuted with witnesses (known findings): default-BRDF install by init_source_energy changes a "
+             "cached field of either state enters (C16_final_config_history_independent; its configuration equality is "
+             "Leibniz equality of the descriptors incl. kind/ownership tags, which a save/restore changes -- "
+             "C16_final_config_history_independent_sim states it modulo the normalisation of C15, so histories with "
+             "round trips are covered). Refuted with witnesses (known findings): default-BRDF install by init_source_energy changes a "
              "re-bake, stale tables of another direction count break bake, from_dict aliases the caller's direction "
              "lists. The check compares every history with the canonical history of its effective configuration, all "
              "setter permutations, repeated stages, and deep-copies every caller-owned object around every call.",
